@@ -4,7 +4,8 @@ import TbbVerif.Model.C19
 open TbbVerif
 
 def drivers : List (String × Proto.Driver) := [
-  ("c19once", C19.Once.driver)
+  ("c19once", C19.Once.driver),
+  ("c19ets", C19.Ets.driver)
 ]
 
 def main (args : List String) : IO UInt32 := Proto.mainOf drivers args
